@@ -92,6 +92,26 @@ def handleBuild (op : String) (args : List String) : Option String :=
     | some walk =>
       "ok\t" ++ encode (packF (setupPackages pkgName walk)) ++ "\t" ++
         joinWith "\t" ((setupPackageData pkgName walk).map fun kv => encode (packF (kv.1 :: kv.2)))
+  | "bavoid", tops :: specs =>
+    let ts := fields tops
+    some <| "ok\t" ++ joinWith "\t" (specs.map fun s =>
+      match fields s with
+      | [base, pat, isPkg] =>
+        (match Select.parsePattern pat with
+         | .ok pp =>
+           let g : GlobSpec := ⟨Select.parseRel base, pp, isPkg == "1", fun _ => ""⟩
+           boolStr (ts.all fun D => g.avoids D)
+         | .error _ => "E")
+      | _ => "?")
+  | "bgsel", spec :: paths =>
+    some <| match fields spec with
+      | [base, pat, isPkg] =>
+        (match Select.parsePattern pat with
+         | .ok pp =>
+           let g : GlobSpec := ⟨Select.parseRel base, pp, isPkg == "1", fun _ => ""⟩
+           "ok\t" ++ String.join (paths.map fun q => boolStr (g.sel (Select.parseRel q)))
+         | .error e => bErr e)
+      | _ => "bad-arg"
   | "bint", [s] =>
     some <| match pyInt s with | some t => "ok\t" ++ toString t | none => "err\tvalue"
   | "btime", [kind, isSet, v] =>
@@ -126,7 +146,7 @@ def handleBuild (op : String) (args : List String) : Option String :=
       | .ok es =>
         let dt := match es with | e :: _ => e.dateTime.text | [] => ""
         let ops := wheelOps p
-        "ok\t" ++ dt ++ "\t" ++ boolStr (decide (DistinctTargets di ops)) ++ "\t" ++
+        "ok\t" ++ dt ++ "\t" ++ boolStr (decide (DistinctTargets di ops)) ++ boolStr (decide (ConfigDistinct p)) ++ "\t" ++
           encode (recordText di (run {} ops).records) ++ "\t" ++ toString ops.length ++ "\t" ++
           joinWith "\t" (ops.map (encode ∘ showOp) ++ es.map (fun e => encode (showMember e.member)))
     | _, _ => "bad-arg"
